@@ -241,6 +241,22 @@ func c13R3(c *engine.Ctx) {
 }
 
 func c13R4(c *engine.Ctx) {
+	// CheckDH accepts exactly 2048-bit primes: the accepting path lies on the
+	// BitLen(p) == 2048 edge (a one-sided test accepts the other side)
+	if dh := c.MustFunc("C13.R4", "crypto", "CheckDH"); dh != nil {
+		bits, _ := constInt(c, "crypto", "RSAKeyBits")
+		n := 0
+		for _, r := range engine.SuccessReturns(dh) {
+			n++
+			ok := engine.GuardedBy(r, func(k engine.Cmp) bool {
+				call := isCallTo(k.X, "(*math/big.Int).BitLen")
+				v, isN := engine.ConstInt(k.Y)
+				return call != nil && call.Common().Args[0] == ssa.Value(dh.Params[1]) && k.Op == token.EQL && isN && v == bits && bits == 2048
+			})
+			c.Check(ok, "C13.R4", "CheckDH/exactly-2048-bit#"+ordinal(dh, r), r.Pos(), "CheckDH may accept only when p.BitLen() == 2048 holds on the path (both a shorter and a longer prime must be refused)")
+		}
+		c.Floor("C13.R4", 1, n)
+	}
 	fn := c.MustFunc("C13.R4", "crypto", "checkPrime")
 	if fn == nil {
 		return
